@@ -949,7 +949,7 @@ fn run_top(world: &mut World, t: usize, op: &STop)
     match op
     {
         STop::Acts(script) => top_acts(world, t, script.clone()),
-        STop::AppReactor(..) | STop::Update => {}
+        STop::AppReactor(..) | STop::Update | STop::ClearTrackers => {}
         STop::WDespawn(r) => { if let Some(e) = resolve(*r) { world.despawn(e); } else { top_acts(world, t, vec![]) } }
         STop::WDespawnRec(r) =>
         {
@@ -1129,7 +1129,19 @@ fn run_scenario(path: &str)
             }
             if let STop::AppReactor(d, ts) = op { add_app_reactor(&mut app, t, *d, ts); continue }
             // a whole frame through the real schedules: `Last` = garbage collection, then the removal / despawn poll
-            if let STop::Update = op { log(format!("top {t}")); app.update(); continue }
+            // (`App::update` = the schedules, then `World::clear_trackers`; a scenario writes it as `top update` followed by
+            // `top cleartrackers`, the second of which is then already done)
+            if let STop::Update = op
+            {
+                assert!(matches!(sc.tops.get(t + 1), Some(STop::ClearTrackers)), "malformed scenario: `top update` without `top cleartrackers`");
+                log(format!("top {t}")); app.update(); continue
+            }
+            if let STop::ClearTrackers = op
+            {
+                log(format!("top {t}"));
+                if t == 0 || !matches!(sc.tops[t - 1], STop::Update) { app.world_mut().clear_trackers(); }
+                continue
+            }
             run_top(app.world_mut(), t, op);
         }
         let world = app.world_mut();
